@@ -1,3 +1,1033 @@
-//! C11 harnesses (see /verif/DESIGN.md section 5).
+//! C11 - IP defragmentation for every delivery history (see /verif/DESIGN.md section 5).
+//!
+//! Layers, every one running the real etherparse code:
+//!  1. `IpFragRange::merge` is complete (all pairs of well formed ranges);
+//!  2. `IpDefragBuf::add` as an inductive step from an ARBITRARY state satisfying the invariant `I`
+//!     (below), `IpDefragBuf::new` as the induction base -> delivery histories of any length;
+//!  3. bounded delivery histories on the real constructor (all cuttings of a <= 32 byte datagram,
+//!     permutations, duplicates, recycled dirty buffers, rejected fragments in between);
+//!  4. `IpDefragPool::process_sliced_packet`: the first packet of a stream on a pool with a
+//!     recycled buffer (IPv4, IPv6, no IP layer).
+//!     NOT reached at pool level: two or more deliveries into one pool. One call of
+//!     `process_sliced_packet` costs CBMC 1.2-2 million SAT variables (the discriminants of
+//!     `NetSlice` / the map's `Entry` are niche-encoded and not constant for the symbolic
+//!     execution, so the IPv4, IPv6 and no-IP arms and the occupied/vacant arms are all followed and
+//!     merged), the second call into the same pool exceeds 16 GB. Stream separation inside the pool
+//!     therefore rests on layer 2/3 (each stream has its own `IpDefragBuf`) plus reading the ~50
+//!     lines of dispatch; `check_key` below decides the stream key for all packets once the pool
+//!     exposes its packet -> (key, offset, MF, payload) step (hook proposal in the C11 report).
+//!
+//! The oracles are ghost computations on interval sets / bit masks written from RFC 791 (3.2
+//! "Fragmentation and Reassembly") and RFC 8200 (4.5); they share no code with etherparse.
+//!
+//! Invariant `I` of an `IpDefragBuf` (data, sections, end):
+//!   (a) every section has start <= end <= data.len()
+//!   (b) sections are pairwise disconnected (neither overlapping nor touching)
+//!   (c) end = Some(e)  =>  data.len() == e  and some section ends at e
+//!       (with (a): no section reaches beyond the end)
+//! The content clause ("bytes under the sections are the bytes that were delivered") is checked
+//! as a frame condition: `add` writes exactly the fragment bytes and changes nothing else.
+//!
+//! CBMC specifics that shaped the harnesses (measured, see the comments at the places):
+//!  * pushing to / reserving in a `Vec` of symbolic length makes the symbolic execution follow the
+//!    infeasible growth path into a reallocation of symbolic size; such objects must not pile up
+//!    (`reseat`, constant-length construction + `truncate`);
+//!  * a `copy_from_slice` into a packet array loses the constant header bytes (`put!`).
 
-crate::harnesses! {}
+use crate::sym::{any, any_le, assume};
+use crate::witness;
+use etherparse::defrag::*;
+use etherparse::*;
+
+// ------------------------------------------------------------------------------------------
+// 1. IpFragRange::merge
+// ------------------------------------------------------------------------------------------
+
+/// `merge` returns `Some` exactly for ranges that overlap or touch, and then their hull.
+pub fn merge_complete() {
+    let a = IpFragRange { start: any(), end: any() };
+    let b = IpFragRange { start: any(), end: any() };
+    // a range is "offset .. offset + length" (doc of the fields): start <= end
+    assume(a.start <= a.end);
+    assume(b.start <= b.end);
+    // reference: two closed integer intervals are connected iff neither lies strictly behind the other
+    let connected = !(a.end < b.start || b.end < a.start);
+    let lo = if a.start < b.start { a.start } else { b.start };
+    let hi = if a.end > b.end { a.end } else { b.end };
+    let m = a.merge(b);
+    let m2 = b.merge(a);
+    witness!(m.is_some() && a.end == b.start, "touching");
+    witness!(m.is_some() && a.start < b.start && b.end < a.end, "nested");
+    witness!(m.is_none(), "disconnected");
+    assert!(m.is_some() == connected);
+    assert!(m2.is_some() == connected);
+    if let Some(r) = m {
+        assert!(r.start == lo);
+        assert!(r.end == hi);
+    }
+    if let Some(r) = m2 {
+        assert!(r.start == lo);
+        assert!(r.end == hi);
+    }
+}
+
+// ------------------------------------------------------------------------------------------
+// 2. induction base: IpDefragBuf::new
+// ------------------------------------------------------------------------------------------
+
+/// `new` on recycled (dirty) vectors yields the empty state, which satisfies `I`.
+pub fn buf_new() {
+    let old: [u8; 8] = any();
+    let n = any_le(8);
+    let mut data = Vec::with_capacity(8);
+    data.extend_from_slice(&old[..n]);
+    let mut sections = Vec::with_capacity(4);
+    let ns = any_le(2);
+    if ns > 0 {
+        sections.push(IpFragRange { start: any(), end: any() });
+    }
+    if ns > 1 {
+        sections.push(IpFragRange { start: any(), end: any() });
+    }
+    let ipn: u8 = any();
+    witness!(n == 8 && ns == 2, "dirty_buffers");
+    let buf = IpDefragBuf::new(IpNumber(ipn), data, sections);
+    assert!(buf.ip_number() == IpNumber(ipn));
+    assert!(buf.data().len() == 0);
+    assert!(buf.sections().len() == 0);
+    assert!(buf.end().is_none());
+    assert!(!buf.is_complete());
+    // the recycled allocations are kept (that is the point of the pool)
+    assert!(buf.data().capacity() >= 8);
+    let (d, s) = buf.take_bufs();
+    assert!(d.len() == 0 && s.len() == 0);
+    core::mem::forget(d);
+    core::mem::forget(s);
+}
+
+// ------------------------------------------------------------------------------------------
+// 3. bounded histories on the real constructor
+// ------------------------------------------------------------------------------------------
+
+/// size of the datagram payload of the history harnesses
+const HP: usize = 32;
+/// 8 byte blocks in HP
+const HB: usize = HP / 8;
+
+/// ghost state of a history
+struct Hist {
+    p: [u8; HP],
+    len: usize,
+    nb: usize,
+    cuts: u8,
+    ipn: u8,
+    /// blocks delivered so far
+    cover: u8,
+    /// the last fragment (MF = 0) was delivered
+    end_known: bool,
+    completions: u8,
+}
+
+impl Hist {
+    /// a fragment boundary at byte 8*j (the end of the datagram counts as one)
+    fn is_cut(&self, j: usize) -> bool {
+        j >= self.nb || (j >= 1 && (self.cuts >> (j - 1)) & 1 == 1)
+    }
+    fn full(&self) -> u8 {
+        ((1u16 << self.nb) - 1) as u8
+    }
+
+    /// one delivery (loop free on the harness side)
+    fn deliver<M: Mode>(&mut self, buf: &mut IpDefragBuf, is_last_delivery: bool, is_first_delivery: bool) {
+        if !M::reject(self, buf) {
+            self.deliver_fragment(buf, is_last_delivery, is_first_delivery);
+        }
+        self.observe(buf);
+    }
+
+    /// a fragment of the cutting: starts at a boundary, runs to the next one
+    fn deliver_fragment(&mut self, buf: &mut IpDefragBuf, is_last_delivery: bool, is_first_delivery: bool) {
+        let len = self.len;
+        let nb = self.nb;
+        let full = self.full();
+        let sb = any_le(HB - 1);
+        assume(sb < nb && (sb == 0 || self.is_cut(sb)));
+        let eb = if self.is_cut(sb + 1) {
+            sb + 1
+        } else if self.is_cut(sb + 2) {
+            sb + 2
+        } else if self.is_cut(sb + 3) {
+            sb + 3
+        } else {
+            HB
+        };
+        // eb <= nb because is_cut(nb) holds by definition
+        let last = eb >= nb;
+        let fstart = sb * 8;
+        let fend = if last { len } else { eb * 8 };
+        let was_complete = self.cover == full;
+        self.cover |= (((1u16 << eb) - 1) & !((1u16 << sb) - 1)) as u8 & full;
+        self.end_known = self.end_known || last;
+        let r = buf.add(IpFragOffset::try_new(sb as u16).unwrap(), !last, &self.p[fstart..fend]);
+        assert!(r.is_ok(), "a fragment of the datagram is accepted");
+        let complete = self.cover == full;
+        if complete && !was_complete {
+            self.completions += 1;
+            witness!(is_last_delivery, "completes_on_last_delivery");
+            witness!(is_first_delivery, "single_fragment_datagram");
+            witness!(sb == 0 && nb >= 3 && self.cuts & 3 == 3, "first_fragment_arrives_last_of_3");
+        }
+        assert!(buf.is_complete() == complete, "complete exactly when every block arrived");
+    }
+
+    /// a fragment that must be rejected (symbolic kind); false: none delivered
+    fn deliver_reject(&mut self, buf: &mut IpDefragBuf) -> bool {
+        let len = self.len;
+        let bad: u8 = any();
+        if bad == 0 {
+            return false;
+        }
+        let off: u16 = any();
+        assume(off < 0x2000);
+        let more: bool = any();
+        let junk: [u8; 16] = any();
+        let jl = any_le(16);
+        let fend = off as usize * 8 + jl;
+        let e = buf.add(IpFragOffset::try_new(off).unwrap(), more, &junk[..jl]);
+        if bad == 1 {
+            // RFC 791: every fragment but the last carries a multiple of 8 bytes
+            assume(more && jl % 8 != 0 && fend <= 0xffff);
+            witness!(true, "reject_unaligned");
+            assert!(
+                e == Err(IpDefragError::UnalignedFragmentPayloadLen {
+                    offset: IpFragOffset::try_new(off).unwrap(),
+                    payload_len: jl
+                })
+            );
+        } else if bad == 2 {
+            // a datagram is at most 65535 bytes long
+            assume(fend > 0xffff && !(more && jl % 8 != 0));
+            witness!(true, "reject_oversized");
+            assert!(
+                e == Err(IpDefragError::SegmentTooBig {
+                    offset: IpFragOffset::try_new(off).unwrap(),
+                    payload_len: jl,
+                    max: 0xffff
+                })
+            );
+        } else {
+            // the end of the datagram is known: nothing may lie behind it, no other end
+            assume(bad == 3 && self.end_known && fend <= 0xffff && !(more && jl % 8 != 0));
+            assume(fend > len || (!more && fend != len));
+            witness!(more, "reject_beyond_end");
+            witness!(!more && fend < len, "reject_second_end");
+            assert!(
+                e == Err(IpDefragError::ConflictingEnd {
+                    previous_end: len as u16,
+                    conflicting_end: fend as u16
+                })
+            );
+        }
+        // the rejected fragment leaves no trace (`observe` sees the same state as before)
+        assert!(buf.is_complete() == (self.cover == self.full()));
+        true
+    }
+
+    /// observable state after a delivery
+    fn observe(&self, buf: &IpDefragBuf) {
+        let len = self.len;
+        if self.end_known {
+            assert!(buf.end() == Some(len as u16));
+            assert!(buf.data().len() == len);
+        } else {
+            assert!(buf.end().is_none());
+        }
+        let i = any_le(HP - 1);
+        assume(i < len);
+        if self.cover == self.full() {
+            // the result: independent of the old bytes and of everything that was rejected
+            assert!(buf.data()[i] == self.p[i], "reassembled bytes equal the datagram");
+            assert!(buf.ip_number() == IpNumber(self.ipn));
+            assert!(buf.sections().len() == 1);
+        } else if (self.cover >> (i / 8)) & 1 == 1 {
+            // every block that arrived is in place already (no later delivery has to repair it)
+            assert!(buf.data()[i] == self.p[i]);
+        }
+    }
+}
+
+/// whether a history may contain fragments that have to be rejected
+trait Mode {
+    fn reject(h: &mut Hist, buf: &mut IpDefragBuf) -> bool;
+}
+struct Clean;
+impl Mode for Clean {
+    fn reject(_: &mut Hist, _: &mut IpDefragBuf) -> bool {
+        false
+    }
+}
+struct WithRejects;
+impl Mode for WithRejects {
+    fn reject(h: &mut Hist, buf: &mut IpDefragBuf) -> bool {
+        h.deliver_reject(buf)
+    }
+}
+
+/// Moves the state of a buffer into fresh allocations of constant capacity: same data bytes
+/// (including the stale bytes behind `len`, which is what a later `set_len` would expose), same
+/// length, same sections in the same order, same `end`, same ip number - the identity on
+/// everything `IpDefragBuf` consists of. Purpose: every `add` makes the symbolic execution
+/// follow two infeasible growth paths (`try_reserve`, `push`) into reallocations of symbolic
+/// size; without re-seating those objects pile up in the points-to sets and CBMC runs out of
+/// memory at the fourth delivery (measured: > 25 GB).
+#[cfg(feature = "hooks")]
+fn reseat(buf: IpDefragBuf) -> IpDefragBuf {
+    let ipn = buf.ip_number();
+    let end = buf.end();
+    let (d, s) = buf.take_bufs();
+    // the histories never need more than the recycled capacity
+    assert!(d.len() <= HP && d.capacity() >= HP);
+    assert!(s.len() <= 3 && s.capacity() >= 4);
+    let mut nd: Vec<u8> = Vec::with_capacity(HP);
+    let mut ns: Vec<IpFragRange> = Vec::with_capacity(4);
+    unsafe {
+        core::ptr::copy_nonoverlapping(d.as_ptr(), nd.as_mut_ptr(), HP);
+        nd.set_len(d.len());
+        core::ptr::copy_nonoverlapping(s.as_ptr(), ns.as_mut_ptr(), 4);
+        ns.set_len(s.len());
+    }
+    core::mem::forget(d);
+    core::mem::forget(s);
+    IpDefragBuf::verif_from_parts(ipn, nd, ns, end)
+}
+#[cfg(not(feature = "hooks"))]
+fn reseat(buf: IpDefragBuf) -> IpDefragBuf {
+    buf
+}
+
+/// One datagram, one cutting, a symbolic sequence of `NDELIV` deliveries.
+///
+/// * payload `p[..len]`, 1 <= len <= 32, arbitrary bytes
+/// * cutting: a symbolic subset of the 8-aligned boundaries inside the payload (all 2^3 subsets,
+///   i.e. every way of cutting a <= 32 byte datagram: 1 to 4 fragments)
+/// * every delivery picks an arbitrary fragment of the cutting (so all permutations and all
+///   duplications of length `NDELIV` are covered), or - if `REJECTS` - a fragment that has to be
+///   rejected (unaligned, oversized, or conflicting with the already announced end)
+/// * the data buffer is recycled: capacity 32 and pre-filled with independent symbolic bytes, the
+///   section buffer is recycled with stale entries
+///
+/// Checked after every delivery: accepted fragments return `Ok`, the buffer reports completion
+/// exactly from the delivery on that supplies the last missing block, at that point (and ever
+/// after) `data` equals the payload - for every value of the old bytes - and `end` its length;
+/// rejected fragments return the documented error value and change nothing.
+fn history<const NDELIV: usize, M: Mode>() {
+    let p: [u8; HP] = any();
+    let len = any_le(HP);
+    assume(len >= 1);
+    let cuts: u8 = any();
+    assume(cuts < 8);
+    // recycled buffers
+    let old: [u8; HP] = any();
+    let mut data = Vec::with_capacity(HP);
+    data.extend_from_slice(&old);
+    let mut sections = Vec::with_capacity(4);
+    sections.push(IpFragRange { start: any(), end: any() });
+    sections.push(IpFragRange { start: any(), end: any() });
+    let ipn: u8 = any();
+    let mut buf = IpDefragBuf::new(IpNumber(ipn), data, sections);
+    let mut h = Hist { p, len, nb: (len + 7) / 8, cuts, ipn, cover: 0, end_known: false, completions: 0 };
+
+    // NDELIV deliveries, unrolled by hand (keeps the unwind bound at the size of the section list)
+    h.deliver::<M>(&mut buf, NDELIV == 1, true);
+    if NDELIV >= 2 {
+        buf = reseat(buf);
+        h.deliver::<M>(&mut buf, NDELIV == 2, false);
+    }
+    if NDELIV >= 3 {
+        buf = reseat(buf);
+        h.deliver::<M>(&mut buf, NDELIV == 3, false);
+    }
+    if NDELIV >= 4 {
+        buf = reseat(buf);
+        h.deliver::<M>(&mut buf, NDELIV == 4, false);
+    }
+    if NDELIV >= 5 {
+        buf = reseat(buf);
+        h.deliver::<M>(&mut buf, NDELIV == 5, false);
+    }
+    if NDELIV >= 6 {
+        buf = reseat(buf);
+        h.deliver::<M>(&mut buf, NDELIV == 6, false);
+    }
+    assert!(NDELIV <= 6);
+
+    assert!(h.completions <= 1);
+    witness!(h.completions == 1 && old[0] != p[0], "completed_over_different_old_bytes");
+    witness!(h.completions == 0 && h.cover != 0, "incomplete_history");
+    let (dv, sv) = buf.take_bufs();
+    if h.cover == h.full() {
+        assert!(dv.len() == len);
+    }
+    core::mem::forget(dv);
+    core::mem::forget(sv);
+}
+
+pub fn hist_3() {
+    history::<3, Clean>()
+}
+pub fn hist_4() {
+    history::<4, Clean>()
+}
+pub fn hist_6() {
+    history::<6, Clean>()
+}
+pub fn hist_rej_4() {
+    history::<4, WithRejects>()
+}
+
+// ------------------------------------------------------------------------------------------
+// 2. inductive step: IpDefragBuf::add from an arbitrary state satisfying I
+// ------------------------------------------------------------------------------------------
+
+#[cfg(feature = "hooks")]
+mod hooked {
+    use super::*;
+
+    /// bound on `data.len()` of the pre-state
+    const SD: usize = 48;
+    /// bound on the number of sections of the pre-state
+    const SS: usize = 3;
+    /// bound on the fragment length
+    const SF: usize = 16;
+
+    /// bits s..e of a 128 bit mask (e <= 127)
+    fn mask(s: usize, e: usize) -> u128 {
+        ((1u128 << e) - 1) & !((1u128 << s) - 1)
+    }
+
+    /// x lies in the closed interval of one of the first n sections
+    fn in_closed(sec: &[IpFragRange], n: usize, x: u16) -> bool {
+        (n > 0 && sec[0].start <= x && x <= sec[0].end)
+            || (n > 1 && sec[1].start <= x && x <= sec[1].end)
+            || (n > 2 && sec[2].start <= x && x <= sec[2].end)
+            || (n > 3 && sec[3].start <= x && x <= sec[3].end)
+    }
+
+    fn disconnected(a: IpFragRange, b: IpFragRange) -> bool {
+        a.end < b.start || b.end < a.start
+    }
+
+    /// An arbitrary buffer state satisfying `I` (<= 3 sections, <= 48 data bytes, any content) and
+    /// the outcome of ONE `add` with an arbitrary fragment (any offset, either MF value, <= 16
+    /// arbitrary bytes). The `add_step_*` harnesses below each check one group of post-conditions;
+    /// together with `buf_new` they are an induction over delivery histories of any length.
+    struct Step {
+        g: [u8; SD],
+        dlen: usize,
+        nsec: usize,
+        pre: [IpFragRange; SS],
+        pre_end: Option<u16>,
+        ipn: u8,
+        off: u16,
+        more: bool,
+        f: [u8; SF],
+        flen: usize,
+        fstart: usize,
+        fend: usize,
+        buf: IpDefragBuf,
+        r: Result<(), IpDefragError>,
+        // ---- oracle: what is wrong with the fragment (RFC 791 / documented errors)
+        /// offset*8 + len > 65535
+        too_big: bool,
+        /// MF set and length not a multiple of 8
+        unaligned: bool,
+        /// the end is already announced and the fragment reaches behind it or announces another end
+        conflict: bool,
+        /// the fragment announces an end (MF = 0) in front of bytes that were already received.
+        /// (etherparse up to commit ce961c9 accepted such a fragment when it arrived AFTER the data
+        /// behind it and rejected the data when it arrived after the end - conflict detection
+        /// depended on the arrival order; fixed in 8266f77, asserted strictly here.)
+        late_end: bool,
+    }
+
+    fn step() -> Step {
+        // ---------------- arbitrary pre-state
+        let g: [u8; SD] = any();
+        let dlen = any_le(SD);
+        let nsec = any_le(SS);
+        let st: [u16; SS] = [any(), any(), any()];
+        let en: [u16; SS] = [any(), any(), any()];
+        let pre = [
+            IpFragRange { start: st[0], end: en[0] },
+            IpFragRange { start: st[1], end: en[1] },
+            IpFragRange { start: st[2], end: en[2] },
+        ];
+        // I (a)
+        assume(nsec < 1 || (st[0] <= en[0] && en[0] as usize <= dlen));
+        assume(nsec < 2 || (st[1] <= en[1] && en[1] as usize <= dlen));
+        assume(nsec < 3 || (st[2] <= en[2] && en[2] as usize <= dlen));
+        // I (b)
+        assume(nsec < 2 || disconnected(pre[0], pre[1]));
+        assume(nsec < 3 || (disconnected(pre[0], pre[2]) && disconnected(pre[1], pre[2])));
+        // I (c)
+        let end_set: bool = any();
+        if end_set {
+            assume(
+                (nsec > 0 && en[0] as usize == dlen)
+                    || (nsec > 1 && en[1] as usize == dlen)
+                    || (nsec > 2 && en[2] as usize == dlen),
+            );
+        }
+        let pre_end = if end_set { Some(dlen as u16) } else { None };
+
+        // Both vectors are filled to a constant length and then cut to the symbolic one: pushing to
+        // a vector of symbolic length makes the symbolic execution follow the (infeasible) growth
+        // path into a reallocation of symbolic size, which CBMC cannot digest.
+        let mut data = Vec::with_capacity(SD);
+        data.extend_from_slice(&g);
+        data.truncate(dlen);
+        let mut sections = Vec::with_capacity(SS + 1);
+        sections.push(pre[0]);
+        sections.push(pre[1]);
+        sections.push(pre[2]);
+        sections.truncate(nsec);
+        let ipn: u8 = any();
+        let mut buf = IpDefragBuf::verif_from_parts(IpNumber(ipn), data, sections, pre_end);
+
+        // ---------------- arbitrary fragment
+        let off: u16 = any();
+        assume(off < 0x2000);
+        let more: bool = any();
+        let f: [u8; SF] = any();
+        let flen = any_le(SF);
+        let fstart = off as usize * 8;
+        let fend = fstart + flen;
+
+        let r = buf.add(IpFragOffset::try_new(off).unwrap(), more, &f[..flen]);
+
+        let too_big = fend > 0xffff;
+        let unaligned = more && flen % 8 != 0;
+        let conflict = !too_big && end_set && (fend > dlen || (!more && fend != dlen));
+        let late_end = !too_big
+            && !more
+            && !end_set
+            && ((nsec > 0 && en[0] as usize > fend) || (nsec > 1 && en[1] as usize > fend) || (nsec > 2 && en[2] as usize > fend));
+        Step { g, dlen, nsec, pre, pre_end, ipn, off, more, f, flen, fstart, fend, buf, r, too_big, unaligned, conflict, late_end }
+    }
+
+    impl Step {
+        fn must_fail(&self) -> bool {
+            self.too_big || self.unaligned || self.conflict || self.late_end
+        }
+        /// restricts to accepted consistent fragments and returns (post end, post data length)
+        fn accepted(&self) -> (Option<u16>, usize) {
+            assume(!self.must_fail() && self.r.is_ok());
+            let post_end = if self.more { self.pre_end } else { Some(self.fend as u16) };
+            // data: cut at the end if known, else long enough for everything seen so far
+            let post_len = match post_end {
+                Some(e) => e as usize,
+                None => {
+                    if self.dlen > self.fend {
+                        self.dlen
+                    } else {
+                        self.fend
+                    }
+                }
+            };
+            (post_end, post_len)
+        }
+    }
+
+    /// The call fails iff the fragment is unaligned, oversized, conflicts with the announced end, or
+    /// announces an end in front of bytes that were already received; the error value names a fault
+    /// that is present, with the right numbers; a rejected fragment leaves sections, end, data
+    /// length and data bytes untouched.
+    pub fn add_step_result() {
+        let s = step();
+        let sec = s.buf.sections();
+        witness!(s.r.is_ok() && s.nsec == 3, "ok_3_sections");
+        witness!(s.r.is_ok() && s.fend > SD + 64, "ok_far_out");
+        witness!(s.r.is_ok() && s.flen == 0, "ok_empty_fragment");
+        if !s.must_fail() {
+            assert!(s.r.is_ok(), "consistent fragment must be accepted");
+            core::mem::forget(s);
+            return;
+        }
+        witness!(s.too_big, "err_too_big");
+        witness!(s.unaligned, "err_unaligned");
+        witness!(s.conflict && s.more, "err_beyond_end");
+        witness!(s.conflict && !s.more && s.fend < s.dlen, "err_second_end");
+        witness!(s.late_end && !s.unaligned, "err_end_in_front_of_received_data");
+        assert!(s.r.is_err(), "inconsistent fragment must be rejected");
+        match s.r {
+            Err(IpDefragError::SegmentTooBig { offset, payload_len, max }) => {
+                assert!(s.too_big);
+                assert!(offset.value() == s.off && payload_len == s.flen && max == 0xffff);
+            }
+            Err(IpDefragError::UnalignedFragmentPayloadLen { offset, payload_len }) => {
+                assert!(s.unaligned);
+                assert!(offset.value() == s.off && payload_len == s.flen);
+            }
+            Err(IpDefragError::ConflictingEnd { previous_end, conflicting_end }) => {
+                assert!(s.conflict || s.late_end);
+                assert!(conflicting_end as usize == s.fend);
+                if s.conflict {
+                    // the announced end
+                    assert!(previous_end as usize == s.dlen);
+                } else {
+                    // how far the received data reaches (the largest section end)
+                    let m0 = if s.nsec > 0 { s.pre[0].end } else { 0 };
+                    let m1 = if s.nsec > 1 && s.pre[1].end > m0 { s.pre[1].end } else { m0 };
+                    let m2 = if s.nsec > 2 && s.pre[2].end > m1 { s.pre[2].end } else { m1 };
+                    assert!(previous_end == m2);
+                }
+            }
+            Err(IpDefragError::AllocationFailure { .. }) => {
+                assert!(false, "allocation never fails here");
+            }
+            Ok(()) => {}
+        }
+        // a rejected fragment leaves no trace
+        assert!(s.buf.end() == s.pre_end);
+        assert!(s.buf.data().len() == s.dlen);
+        assert!(sec.len() == s.nsec);
+        let k = any_le(SS - 1);
+        if k < s.nsec {
+            assert!(sec[k] == s.pre[k]);
+        }
+        let i = any_le(SD - 1);
+        if i < s.dlen {
+            assert!(s.buf.data()[i] == s.g[i]);
+        }
+        core::mem::forget(s);
+    }
+
+    /// Accepted fragment: `end` is updated iff MF = 0, the data length follows, and the data bytes
+    /// are the fragment bytes inside the fragment and the old bytes everywhere else (frame
+    /// condition - hence bytes under sections always are delivered bytes).
+    pub fn add_step_bytes() {
+        let s = step();
+        let (post_end, post_len) = s.accepted();
+        assert!(s.buf.end() == post_end);
+        assert!(s.buf.data().len() == post_len);
+        assert!(s.buf.ip_number() == IpNumber(s.ipn));
+        // i ranges over all positions
+        let i: usize = any();
+        assume(i < post_len);
+        witness!(s.fstart <= i && i < s.fend && i < s.dlen, "overwrites_old_byte");
+        witness!(s.fstart <= i && i < s.fend && i >= SD, "writes_into_grown_buffer");
+        witness!(i < s.dlen && i >= s.fend, "keeps_byte_behind_fragment");
+        if s.fstart <= i && i < s.fend {
+            assert!(s.buf.data()[i] == s.f[i - s.fstart], "fragment bytes are stored at offset*8");
+        } else if i < s.dlen {
+            assert!(s.buf.data()[i] == s.g[i], "bytes outside the fragment are untouched");
+        }
+        core::mem::forget(s);
+    }
+
+    /// Accepted fragment: `I` holds again and the closed coverage of the sections is exactly the
+    /// old coverage plus the fragment (with pairwise disconnected sections this fixes the section
+    /// list up to order: the connected components of everything delivered).
+    pub fn add_step_sections() {
+        let s = step();
+        let (post_end, post_len) = s.accepted();
+        let sec = s.buf.sections();
+        let n = sec.len();
+        witness!(n == 1 && s.nsec == 3, "merges_all");
+        witness!(n == 4, "4_sections_after");
+        witness!(n == 2 && s.nsec == 3, "merges_two_of_three");
+        assert!(n >= 1 && n <= s.nsec + 1);
+        // a, b range over all index pairs
+        let a = any_le(SS);
+        let b = any_le(SS);
+        if a < n {
+            assert!(sec[a].start <= sec[a].end && sec[a].end as usize <= post_len);
+            if b < n && a != b {
+                assert!(disconnected(sec[a], sec[b]), "sections stay pairwise disconnected");
+            }
+        }
+        if let Some(e) = post_end {
+            assert!(
+                (n > 0 && sec[0].end == e) || (n > 1 && sec[1].end == e) || (n > 2 && sec[2].end == e) || (n > 3 && sec[3].end == e)
+            );
+        }
+        // x ranges over all positions
+        let x: u16 = any();
+        let in_frag = s.fstart <= x as usize && x as usize <= s.fend;
+        assert!(in_closed(sec, n, x) == (in_closed(&s.pre, s.nsec, x) || in_frag));
+        core::mem::forget(s);
+    }
+
+    /// Accepted fragment: `is_complete()` iff the end is known and no byte in front of it is
+    /// missing (ghost coverage as a bit mask over byte positions, independent of the section list).
+    pub fn add_step_complete() {
+        let s = step();
+        let (post_end, _) = s.accepted();
+        let complete = s.buf.is_complete();
+        witness!(complete && s.nsec == 2 && s.pre_end.is_none(), "completes_by_last_fragment");
+        witness!(complete && s.nsec == 2 && s.pre_end.is_some() && s.more, "completes_by_hole_fill");
+        witness!(!complete && post_end.is_some() && s.buf.sections().len() == 1, "one_section_but_head_missing");
+        witness!(!complete && post_end.is_none() && s.buf.sections().len() == 1 && s.buf.sections()[0].start == 0, "all_there_but_end_unknown");
+        if s.fend <= 127 {
+            let mut cover: u128 = mask(s.fstart, s.fend);
+            if s.nsec > 0 {
+                cover |= mask(s.pre[0].start as usize, s.pre[0].end as usize);
+            }
+            if s.nsec > 1 {
+                cover |= mask(s.pre[1].start as usize, s.pre[1].end as usize);
+            }
+            if s.nsec > 2 {
+                cover |= mask(s.pre[2].start as usize, s.pre[2].end as usize);
+            }
+            let expect = match post_end {
+                Some(e) => cover & mask(0, e as usize) == mask(0, e as usize),
+                None => false,
+            };
+            assert!(complete == expect, "complete iff end known and every byte before it delivered");
+        } else {
+            // the fragment starts behind everything in the pre-state (>= 111 > 48): byte 48.. is missing
+            assert!(!complete);
+        }
+        core::mem::forget(s);
+    }
+}
+// ------------------------------------------------------------------------------------------
+// 4. IpDefragPool::process_sliced_packet, first packet of a stream
+// ------------------------------------------------------------------------------------------
+
+#[cfg(feature = "hooks")]
+mod pool {
+    use super::*;
+
+    /// payload bytes carried by a packet of the pool harnesses (symbolic length 0..=FL)
+    const FL: usize = 8;
+
+    /// identity of a datagram ("stream") and the bytes of one fragment
+    #[derive(Clone, Copy)]
+    struct Stream {
+        /// number of 802.1Q tags (0..=2) and their VLAN ids (12 bit)
+        ntags: u8,
+        vid: [u16; 2],
+        /// IPv4: first 4 bytes are used
+        src: [u8; 16],
+        dst: [u8; 16],
+        /// IPv4: low 16 bit are used
+        ident: u32,
+        proto: u8,
+        chan: u8,
+        p: [u8; FL],
+    }
+
+    fn stream<const V6: bool>() -> Stream {
+        let s = Stream {
+            ntags: any(),
+            vid: [any(), any()],
+            src: any(),
+            dst: any(),
+            ident: any(),
+            proto: any(),
+            chan: any(),
+            p: any(),
+        };
+        assume(s.ntags <= 2 && s.vid[0] < 0x1000 && s.vid[1] < 0x1000);
+        // Payload protocol: anything that etherparse does not slice as an IP extension header.
+        // (For those it goes on parsing *inside the fragment data*, also in non-first fragments -
+        // a convention of the slicing layer, out of scope here.)
+        if V6 {
+            assume(s.proto != 0 && s.proto != 43 && s.proto != 44 && s.proto != 51 && s.proto != 60);
+        } else {
+            assume(s.proto != 51);
+            assume(s.ident <= 0xffff);
+        }
+        s
+    }
+
+    /// `$b[$at + i] = $src[i]` for the listed constant i (no memcpy: keeps the constant header
+    /// bytes - version, IHL, next header - constant for CBMC's symbolic execution)
+    macro_rules! put {
+        ($b:ident, $at:expr, $src:expr, $($i:literal)*) => { $( $b[$at + $i] = $src[$i]; )* };
+    }
+
+    const V4_LEN: usize = 20 + FL;
+    const V6_LEN: usize = 40 + 8 + FL;
+
+    /// 802.1Q tag: TCI (PCP, DEI, 12 bit VLAN id) + ether type of what follows
+    fn vlan_tag(vid: u16, pcp_dei: u8, next: u16) -> [u8; 4] {
+        [(pcp_dei & 0xf0) | (vid >> 8) as u8, vid as u8, (next >> 8) as u8, next as u8]
+    }
+
+    /// IPv4 header (RFC 791, no options) + `plen` <= 8 payload bytes (total length says so).
+    /// `noise`: values of the fields that must not matter (TOS, DF, TTL, checksum).
+    fn packet_v4(s: &Stream, off_units: u16, more: bool, plen: usize, noise: &[u8; 8]) -> [u8; V4_LEN] {
+        let mut b = [0u8; V4_LEN];
+        let total = (20 + plen) as u16;
+        b[0] = 0x45;
+        b[1] = noise[0];
+        b[2] = (total >> 8) as u8;
+        b[3] = total as u8;
+        b[4] = (s.ident >> 8) as u8;
+        b[5] = s.ident as u8;
+        // flags: reserved 0, DF, MF; 13 bit offset in units of 8 bytes
+        b[6] = (noise[1] & 0x40) | ((more as u8) << 5) | (off_units >> 8) as u8;
+        b[7] = off_units as u8;
+        b[8] = noise[2];
+        b[9] = s.proto;
+        b[10] = noise[3];
+        b[11] = noise[4];
+        put!(b, 12, s.src, 0 1 2 3);
+        put!(b, 16, s.dst, 0 1 2 3);
+        put!(b, 20, s.p, 0 1 2 3 4 5 6 7);
+        b
+    }
+
+    /// IPv6 header + fragment header (RFC 8200 4.5) + `plen` <= 8 payload bytes.
+    /// `noise`: traffic class, flow label, hop limit, reserved bits of the fragment header.
+    fn packet_v6(s: &Stream, off_units: u16, more: bool, plen: usize, with_frag_header: bool, noise: &[u8; 8]) -> [u8; V6_LEN] {
+        let mut b = [0u8; V6_LEN];
+        let pl = (8 + plen) as u16;
+        b[0] = 0x60 | (noise[0] >> 4);
+        b[1] = noise[1];
+        b[2] = noise[2];
+        b[3] = noise[3];
+        b[4] = (pl >> 8) as u8;
+        b[5] = pl as u8;
+        // next header: fragment header, or directly the payload (then the 8 bytes at 40 are payload)
+        b[6] = if with_frag_header { 44 } else { s.proto };
+        b[7] = noise[4];
+        put!(b, 8, s.src, 0 1 2 3 4 5 6 7 8 9 10 11 12 13 14 15);
+        put!(b, 24, s.dst, 0 1 2 3 4 5 6 7 8 9 10 11 12 13 14 15);
+        b[40] = s.proto;
+        b[41] = noise[5]; // reserved
+        // 13 bit offset, 2 reserved bits, M flag
+        b[42] = (off_units >> 5) as u8;
+        b[43] = ((off_units << 3) as u8) | (noise[6] & 0x06) | more as u8;
+        b[44] = (s.ident >> 24) as u8;
+        b[45] = (s.ident >> 16) as u8;
+        b[46] = (s.ident >> 8) as u8;
+        b[47] = s.ident as u8;
+        put!(b, 48, s.p, 0 1 2 3 4 5 6 7);
+        b
+    }
+
+    /// Puts a data buffer of capacity 16 with arbitrary old content into the free list of the pool
+    /// (public API: `return_buf`). A pool that has to allocate computes the capacity from the
+    /// payload length of the packet, which CBMC sees merged over the IPv4 / IPv6 / no-IP arms of
+    /// `process_sliced_packet` - an allocation of symbolic size. With a recycled buffer the
+    /// interesting case (stale bytes in the buffer) is the one explored.
+    fn seed(pool: &mut IpDefragPool<(), u8>) {
+        let old: [u8; 16] = any();
+        let mut v = Vec::with_capacity(16);
+        v.extend_from_slice(&old);
+        pool.return_buf(IpDefragPayloadVec { ip_number: IpNumber(0), len_source: LenSource::Slice, payload: v });
+    }
+
+    /// The first packet of a stream on a pool with one recycled buffer, through the real
+    /// `process_sliced_packet`: arbitrary VLAN tags / addresses / identification / protocol /
+    /// channel / ignored header fields, arbitrary fragment offset and MF flag, 0..=8 payload bytes.
+    ///
+    ///  * not fragmented (offset 0, MF 0; IPv6 also: no fragment header) -> `Ok(None)`, the pool is
+    ///    untouched (no entry, buffer still in the free list);
+    ///  * inconsistent fragment (MF with a length that is no multiple of 8, or reaching beyond 65535)
+    ///    -> the documented error, no entry, both buffers back in the free lists;
+    ///  * any other fragment -> `Ok(None)` (never a result on the first packet), exactly one entry,
+    ///    buffer taken from the free list.
+    ///
+    /// The `SlicedPacket` is put together from the results of the per-layer slicers
+    /// (`SingleVlanSlice::from_slice`, `Ipv4Slice::from_slice` / `Ipv6Slice::from_slice`): the pool
+    /// reads `link_exts` (VLAN ids) and `net` only.
+    fn pool_first<const V6: bool>() {
+        with_first_packet::<V6, _>(check_first::<V6>);
+    }
+
+    /// symbolic parameters of the packet handed to the pool
+    struct Pkt {
+        s: Stream,
+        off: u16,
+        more: bool,
+        plen: usize,
+        with_frag_header: bool,
+    }
+
+    /// builds the symbolic packet and hands it to `f`
+    fn with_first_packet<const V6: bool, F: FnOnce(&Pkt, &SlicedPacket)>(f: F) {
+        let s = stream::<V6>();
+        let noise: [u8; 8] = any();
+        let off: u16 = any();
+        assume(off < 0x2000);
+        let more: bool = any();
+        let plen = any_le(FL);
+        // IPv6 only: a packet without fragment header (then offset / MF do not exist)
+        let with_frag_header: bool = if V6 { any() } else { true };
+        let ip_type: u16 = if V6 { 0x86dd } else { 0x0800 };
+        let tag0 = vlan_tag(s.vid[0], noise[7], if s.ntags > 1 { 0x8100 } else { ip_type });
+        let tag1 = vlan_tag(s.vid[1], noise[7] << 4, ip_type);
+        let v4 = if V6 { [0u8; V4_LEN] } else { packet_v4(&s, off, more, plen, &noise) };
+        let v6 = if V6 { packet_v6(&s, off, more, plen, with_frag_header, &noise) } else { [0u8; V6_LEN] };
+        let mut sliced = SlicedPacket { link: None, link_exts: Default::default(), net: None, transport: None };
+        if s.ntags > 0 {
+            sliced.link_exts.push(LinkExtSlice::Vlan(SingleVlanSlice::from_slice(&tag0).unwrap()));
+        }
+        if s.ntags > 1 {
+            sliced.link_exts.push(LinkExtSlice::Vlan(SingleVlanSlice::from_slice(&tag1).unwrap()));
+        }
+        sliced.net = Some(if V6 {
+            NetSlice::Ipv6(Ipv6Slice::from_slice(&v6).unwrap())
+        } else {
+            NetSlice::Ipv4(Ipv4Slice::from_slice(&v4).unwrap())
+        });
+        f(&Pkt { s, off, more, plen, with_frag_header }, &sliced);
+    }
+
+    fn check_first<const V6: bool>(k: &Pkt, sliced: &SlicedPacket) {
+        let (s, off, more, plen, with_frag_header) = (k.s, k.off, k.more, k.plen, k.with_frag_header);
+        let mut pool = IpDefragPool::<(), u8>::new();
+        seed(&mut pool);
+        let r = pool.process_sliced_packet(sliced, (), s.chan);
+        let c = pool.verif_counts();
+
+        let fragmented = with_frag_header && (more || off != 0);
+        let unaligned = more && plen % 8 != 0;
+        let too_big = off as usize * 8 + plen > 0xffff;
+        if !fragmented {
+            witness!(true, "not_fragmented");
+            witness!(!V6 || with_frag_header, "unfragmented_with_all_headers_present");
+            assert!(matches!(r, Ok(None)), "unfragmented packets pass through");
+            assert!(c.0 == 0 && c.1 == 1 && c.2 == 0, "... and leave the pool untouched");
+        } else if unaligned || too_big {
+            witness!(unaligned && !too_big, "unaligned_first_packet");
+            witness!(too_big && !unaligned, "oversized_first_packet");
+            match r {
+                Err(IpDefragError::UnalignedFragmentPayloadLen { offset, payload_len }) => {
+                    assert!(unaligned && offset.value() == off && payload_len == plen);
+                }
+                Err(IpDefragError::SegmentTooBig { offset, payload_len, max }) => {
+                    assert!(too_big && offset.value() == off && payload_len == plen && max == 0xffff);
+                }
+                _ => assert!(false, "inconsistent fragment must be rejected with the documented error"),
+            }
+            assert!(c.0 == 0 && c.1 == 1 && c.2 == 1, "no entry, buffers back in the free lists");
+        } else {
+            witness!(off == 0, "first_fragment");
+            witness!(off > 0 && !more, "last_fragment_first");
+            witness!(s.ntags == 2, "double_tagged");
+            assert!(matches!(r, Ok(None)), "nothing before the last missing byte");
+            assert!(c.0 == 1 && c.1 == 0 && c.2 == 0, "one entry, recycled buffer in use");
+        }
+        core::mem::forget(r);
+        core::mem::forget(pool);
+    }
+
+    /// The stream key and the fragment description the pool derives from a packet
+    /// (needs the hook `IpDefragPool::verif_fragment_of`).
+    #[cfg(feature = "hooks_extract")]
+    fn check_key<const V6: bool>(k: &Pkt, sliced: &SlicedPacket) {
+        let s = &k.s;
+        let r = IpDefragPool::<(), u8>::verif_fragment_of(sliced, s.chan);
+        let fragmented = k.with_frag_header && (k.more || k.off != 0);
+        witness!(r.is_none(), "not_fragmented");
+        witness!(r.is_some() && s.ntags == 2, "double_tagged_fragment");
+        let Some((id, offset, more, payload, is_ipv4)) = r else {
+            assert!(!fragmented);
+            return;
+        };
+        assert!(fragmented);
+        assert!(is_ipv4 == !V6);
+        assert!(offset.value() == k.off && more == k.more);
+        // every component of the key
+        assert!(id.vlan_ids.len() == s.ntags as usize);
+        assert!(s.ntags < 1 || id.vlan_ids[0].value() == s.vid[0]);
+        assert!(s.ntags < 2 || id.vlan_ids[1].value() == s.vid[1]);
+        assert!(id.payload_ip_number == IpNumber(s.proto));
+        assert!(id.channel_id == s.chan);
+        let i = any_le(15);
+        match id.ip {
+            IpFragVersionSpecId::Ipv4 { source, destination, identification } => {
+                assert!(!V6);
+                assume(i < 4);
+                assert!(source[i] == s.src[i] && destination[i] == s.dst[i]);
+                assert!(identification as u32 == s.ident);
+            }
+            IpFragVersionSpecId::Ipv6 { source, destination, identification } => {
+                assert!(V6);
+                assert!(source[i] == s.src[i] && destination[i] == s.dst[i]);
+                assert!(identification == s.ident);
+            }
+        }
+        // the fragment bytes and their protocol
+        assert!(payload.ip_number == IpNumber(s.proto));
+        assert!(payload.payload.len() == k.plen);
+        let j = any_le(FL - 1);
+        assume(j < k.plen);
+        assert!(payload.payload[j] == s.p[j]);
+    }
+    #[cfg(feature = "hooks_extract")]
+    pub fn pool_key_v4() {
+        with_first_packet::<false, _>(check_key::<false>);
+    }
+    #[cfg(feature = "hooks_extract")]
+    pub fn pool_key_v6() {
+        with_first_packet::<true, _>(check_key::<true>);
+    }
+
+    pub fn pool_first_v4() {
+        pool_first::<false>()
+    }
+    pub fn pool_first_v6() {
+        pool_first::<true>()
+    }
+
+    /// packets without an IP layer (ARP, unknown ether type, ...) pass through untouched
+    pub fn pool_non_ip() {
+        let arp: [u8; 28] = any();
+        let is_arp: bool = any();
+        let mut sliced = SlicedPacket { link: None, link_exts: Default::default(), net: None, transport: None };
+        if is_arp {
+            let a = ArpPacketSlice::from_slice(&arp);
+            assume(a.is_ok());
+            sliced.net = Some(NetSlice::Arp(a.unwrap()));
+        }
+        witness!(is_arp, "arp");
+        witness!(!is_arp, "no_net_layer");
+        let mut pool = IpDefragPool::<(), u8>::new();
+        seed(&mut pool);
+        let r = pool.process_sliced_packet(&sliced, (), any());
+        let c = pool.verif_counts();
+        assert!(matches!(r, Ok(None)));
+        assert!(c.0 == 0 && c.1 == 1 && c.2 == 0);
+        core::mem::forget(r);
+        core::mem::forget(pool);
+    }
+}
+#[cfg(feature = "hooks")]
+pub use pool::*;
+
+#[cfg(feature = "hooks")]
+pub use hooked::*;
+
+#[cfg(feature = "hooks")]
+crate::harnesses! {
+    c11_merge_complete = merge_complete; unwind 2,
+    c11_buf_new = buf_new; unwind 4,
+    c11_add_step_result = add_step_result; unwind 5,
+    c11_add_step_bytes = add_step_bytes; unwind 5,
+    c11_add_step_sections = add_step_sections; unwind 5,
+    c11_add_step_complete = add_step_complete; unwind 5,
+    c11_hist_3 = hist_3; unwind 4,
+    c11_hist_4 = hist_4; unwind 4,
+    c11_hist_6 = hist_6; unwind 4,
+    c11_hist_rej_4 = hist_rej_4; unwind 4,
+    c11_pool_first_v4 = pool_first_v4; unwind 5,
+    c11_pool_first_v6 = pool_first_v6; unwind 5,
+    c11_pool_non_ip = pool_non_ip; unwind 5,
+}
+// without the hooks (native replay binary): the harnesses that need no hook; the history harnesses
+// then run without re-seating (natively that makes no difference)
+#[cfg(not(feature = "hooks"))]
+crate::harnesses! {
+    c11_merge_complete = merge_complete; unwind 2,
+    c11_buf_new = buf_new; unwind 4,
+    c11_hist_3 = hist_3; unwind 4,
+    c11_hist_4 = hist_4; unwind 4,
+    c11_hist_6 = hist_6; unwind 4,
+    c11_hist_rej_4 = hist_rej_4; unwind 4,
+}
